@@ -115,6 +115,14 @@ def envOfJson (j : Json) : Vars :=
       | _ => acc
   | _ => []
 
+def strTable (j : Json) : List (String × String) :=
+  match j with
+  | .obj kvs => kvs.foldl (init := []) fun acc k v =>
+      match v with
+      | .str s => (k, s) :: acc
+      | _ => acc
+  | _ => []
+
 def strList (j : Json) : List String :=
   match j with
   | .arr a => a.toList.filterMap fun x => match x with | .str s => some s | _ => none
@@ -311,6 +319,22 @@ def handle (j : Json) : Except String Json := do
     let lines := strList (j.getObjValD "lines")
     let parts := splitAt (if fmt == "toml" then sepToml else sepYaml) lines
     pure (Json.mkObj [("ok", Json.arr (parts.map fun p => Json.arr (p.map Json.str).toArray).toArray)])
+  | "jsonenc" =>
+    -- json.go:jsonMarshalStream, byte for byte: the model's own JSON writer (Bkl.Json).  `jf` is the table of
+    -- float renderings (float text ↦ JSON literal; strconv is outside the model)
+    let docs ← (j.getObjValD "docs").getArr? >>= fun a => a.toList.mapM valOfJson
+    let tbl := strTable (j.getObjValD "jf")
+    let jf := fun (r : String) => ((tbl.find? (·.1 == r)).map (·.2)).getD r
+    pure (Json.mkObj [("ok", Json.str (jsonEncodeStream jf docs))])
+  | "jsondec" =>
+    -- json.go:jsonUnmarshalStream + normalize: the model's own JSON reader.  `fol` maps a number literal to
+    -- the float text it denotes ("" = no float64 holds it)
+    let text ← j.getObjValAs? String "text"
+    let tbl := strTable (j.getObjValD "fol")
+    let fol := fun (l : String) => ((tbl.find? (·.1 == l)).map (·.2)).getD ""
+    match jsonLoadStream fol text with
+    | .ok vs => pure (Json.mkObj [("ok", Json.arr (vs.map valToJson).toArray)])
+    | .error e => pure (errJson e)
   | "parseref" =>
     let s ← j.getObjValAs? String "s"
     match parseRef s with
